@@ -8,7 +8,9 @@ from ..core import call_real
 
 ID = "C08"
 LEAN_MODULE = "CKT.Props.C08Full"
-THEOREMS = ["CKT.C08." + t for t in [
+THEOREMS = [
+    # T08.4 at specification level (gate cuts): useless cuts can be removed without changing the subcircuits or raising the overhead
+    "CKT.C08Spec.conn_prune", "CKT.C08Spec.cost_prune_le", "CKT.C08Spec.prune_no_useless", "CKT.C08Spec.useless_cuts_removable"] + ["CKT.C08." + t for t in [
     "desc_cost", "insertKey_sorted", "put1_spec", "put_spec", "lb_of_head", "lb_of_empty", "updMin_fields", "updUb_fields",
     "good_flag_of_popped", "loop_good", "pass_good", "flag_sound", "actCost_ge_one", "child_cost", "cut_mono", "firstMin_spec",
     "passes_inv", "startSearch_good", "optimize_flag_sound",
